@@ -384,7 +384,7 @@ def case_prim(case):
 
 
 # ------------------------------------------------------------------------------- B half: mappings and prefix
-WRAPS = ["plain", "vec", "option", "map_value", "generic_arg", "vec_option"]
+WRAPS = ["plain", "vec", "option", "map_value", "map_key", "vec_map_key", "slice", "generic_arg", "generic_second_arg", "vec_option"]
 
 
 def case_mapping(case):
@@ -421,6 +421,14 @@ def case_mapping(case):
             t = ir.generic("Wrap", [t])
         elif wrap == "vec_option":
             t = ir.vec(ir.option(t))
+        elif wrap == "map_key":
+            t = ir.hashmap(t, ir.special("String"))
+        elif wrap == "vec_map_key":
+            t = ir.vec(ir.hashmap(t, ir.special("String")))
+        elif wrap == "slice":
+            t = ir.slice(t)
+        elif wrap == "generic_second_arg":
+            t = ir.generic("Wrap", [ir.special("String"), t])
         r = bharness.format_type(I, lang, lg, t, gens)
         return nm, ky, r
 
@@ -437,7 +445,11 @@ def case_mapping(case):
         wrapname = pre + "Wrap"
         tpl = {"plain": "{0}", "vec": TEMPLATES[lang]["vec"], "option": TEMPLATES[lang]["option"], "map_value": TEMPLATES[lang]["map"].replace("{0}", KEY_STRING[lang]).replace("{1}", "{0}"),
                "generic_arg": TEMPLATES[lang]["generic"].replace("{n}", wrapname).replace("{a}", "{0}"),
-               "vec_option": TEMPLATES[lang]["vec"].replace("{0}", TEMPLATES[lang]["option"])}[wrap]
+               "vec_option": TEMPLATES[lang]["vec"].replace("{0}", TEMPLATES[lang]["option"]),
+               "map_key": TEMPLATES[lang]["map"].replace("{1}", KEY_STRING[lang]),
+               "vec_map_key": TEMPLATES[lang]["vec"].replace("{0}", TEMPLATES[lang]["map"].replace("{1}", KEY_STRING[lang])),
+               "slice": TEMPLATES[lang]["slice"],
+               "generic_second_arg": TEMPLATES[lang]["generic"].replace("{n}", wrapname).replace("{a}", KEY_STRING[lang] + ", {0}")}[wrap]
         a, b = tpl.split("{0}")
 
         def expect(inner):
@@ -597,7 +609,8 @@ def native_b(nat, gname, case, v):
     _, wrap, prefix, generic = case
     name, key = v["name"], v["key"]
     inner = name
-    ty = {"plain": "%s", "vec": "Vec<%s>", "option": "Option<%s>", "map_value": "HashMap<String, %s>", "generic_arg": "Wrap<%s>", "vec_option": "Vec<Option<%s>>"}[wrap] % inner
+    ty = {"plain": "%s", "vec": "Vec<%s>", "option": "Option<%s>", "map_value": "HashMap<String, %s>", "generic_arg": "Wrap<%s>", "vec_option": "Vec<Option<%s>>", "map_key": "HashMap<%s, String>", "vec_map_key": "Vec<HashMap<%s, String>>", "slice": "&[%s]",
+          "generic_second_arg": "Wrap<String, %s>"}[wrap] % inner
     g = "<%s>" % name if generic else "<T>"
     src = "#[typeshare]\npub type A%s = Vec<%s>;\n" % (g, ty)
     cfg["type_mappings"] = {key: "Mapped"}
